@@ -765,13 +765,19 @@ pub struct PeerW {
     pub now: i64,
     pub peer_iss: u32,
     pub peer_fin: i64, // stream offset of the peer's FIN (-1: none)
+    /// the scripted peer speaks RFC 7323 timestamps (when the socket has a generator): value from its clock, echo of
+    /// the last value the socket sent; every tenth segment leaves the option out
+    pub ts_on: bool,
+    pub ts_echo: std::cell::Cell<u32>,
+    pub ts_count: std::cell::Cell<u32>,
 }
 
 impl PeerW {
     pub fn new(cfg: EpCfg, peer_iss: u32) -> PeerW {
         let mut num = Numbering::default();
         num.iss[0] = Some(peer_iss);
-        PeerW { ep: Ep::new(1, cfg, Instant::from_millis(0)), num, now: 0, peer_iss, peer_fin: -1 }
+        let ts_on = cfg.ts;
+        PeerW { ep: Ep::new(1, cfg, Instant::from_millis(0)), num, now: 0, peer_iss, peer_fin: -1, ts_on, ts_echo: std::cell::Cell::new(0), ts_count: std::cell::Cell::new(0) }
     }
     /// Crafts a segment from relative numbers: seq relative to the peer's ISN, ack relative to the socket's ISN
     /// (absolute 0-based if the socket's ISN is not yet known).
@@ -780,7 +786,9 @@ impl PeerW {
         let aseq = self.peer_iss.wrapping_add(seq as u32);
         let aack = ack.map(|a| self.num.iss[1].unwrap_or(0).wrapping_add(a as u32));
         let payload: Vec<u8> = (0..len as i64).map(|i| content(0, seq - 1 + i)).collect();
-        let t = TcpSeg { sport: PORT[0], dport: PORT[1], seq: aseq, ack: aack, syn, fin, rst, psh: false, win, mss, wscale: ws, sackp: false, ts: None, payload, ..Default::default() };
+        self.ts_count.set(self.ts_count.get() + 1);
+        let ts = if self.ts_on && (syn || self.ts_count.get() % 10 != 0) { Some((1000u32.wrapping_add(self.now as u32), self.ts_echo.get())) } else { None };
+        let t = TcpSeg { sport: PORT[0], dport: PORT[1], seq: aseq, ack: aack, syn, fin, rst, psh: false, win, mss, wscale: ws, sackp: false, ts, payload, ..Default::default() };
         if self.ep.cfg.v6 {
             ipv6_packet(ADDR6[0], ADDR6[1], 6, 64, &t.emit(), true)
         } else {
@@ -794,6 +802,13 @@ impl PeerW {
         match self.ep.poll(self.now, vec![frame]) {
             Ok(out) => {
                 let outs: Vec<Value> = out.iter().map(|o| self.num.proj_frame(1, o)).collect();
+                for o in &out {
+                    if let Some(IpPkt { l4: L4::Tcp(seg), .. }) = parse_ip(o) {
+                        if let Some((v, _)) = seg.ts {
+                            self.ts_echo.set(v);
+                        }
+                    }
+                }
                 let p = self.ep.post(self.now);
                 t.ev(json!({"ev":"rx","ep":1,"now":self.now,"seg":segp,"fate":"crafted","out":outs,"before":before,"post":p,"x":extra,"dl":dlb}));
                 true
@@ -993,7 +1008,7 @@ pub fn peer_random(args: &Args) {
         let rx = *rng.pick(&[4usize, 16, 64, 256, 1000, 4096, 70000, 131072]);
         let tx = *rng.pick(&[8usize, 64, 512, 4096, 70000]);
         let mtu = *rng.pick(&[576usize, 1500, 296, 9000]);
-        let cfg = EpCfg { rx, tx, mtu, cc: rng.below(3) as u8, ack_delay: if rng.chance(40) { Some(10) } else { None }, nagle: rng.chance(50), ts: false, keep_alive: None, timeout: None, seed, v6: rng.chance(40), spare: *rng.pick(&[0u8, 0, 1, 2, 3]) };
+        let cfg = EpCfg { rx, tx, mtu, cc: rng.below(3) as u8, ack_delay: if rng.chance(40) { Some(10) } else { None }, nagle: rng.chance(50), ts: rng.chance(30), keep_alive: None, timeout: None, seed, v6: rng.chance(40), spare: *rng.pick(&[0u8, 0, 1, 2, 3]) };
         let peer_iss = match rng.below(4) {
             0 => 0xffff_ff00u32.wrapping_add(rng.below(200) as u32),
             1 => 0x7fff_ff00u32.wrapping_add(rng.below(200) as u32),
